@@ -16,8 +16,11 @@ import (
 	"time"
 )
 
-// Tree is a set of files (relative path -> content). A path ending in "/" is an empty directory.
+// Tree is a set of files (relative path -> content). A path ending in "/" is an empty directory;
+// content starting with LinkPrefix makes the entry a symbolic link to the rest of the content.
 type Tree map[string]string
+
+const LinkPrefix = "\x00->"
 
 func (t Tree) Clone() Tree {
 	c := Tree{}
@@ -64,6 +67,13 @@ func (t Tree) Materialise(dir string) {
 		if err := os.MkdirAll(filepath.Dir(p), 0o755); err != nil {
 			panic(err)
 		}
+		if target, ok := strings.CutPrefix(t[k], LinkPrefix); ok {
+			os.Remove(p)
+			if err := os.Symlink(target, p); err != nil {
+				panic(err)
+			}
+			continue
+		}
 		if err := os.WriteFile(p, []byte(t[k]), 0o644); err != nil {
 			panic(err)
 		}
@@ -104,6 +114,9 @@ func Snapshot(dir string) Snap {
 			st.Mtime = info.ModTime().UnixNano()
 		} else if info.IsDir() {
 			st.Size = 0
+		} else if info.Mode()&os.ModeSymlink != 0 {
+			target, _ := os.Readlink(p)
+			st.Sha = "link:" + target
 		}
 		s[rel] = st
 		return nil
@@ -157,6 +170,11 @@ func ReadTree(dir string) Tree {
 			return nil
 		}
 		rel, _ := filepath.Rel(dir, p)
+		if d.Type()&os.ModeSymlink != 0 {
+			target, _ := os.Readlink(p)
+			t[rel] = LinkPrefix + target
+			return nil
+		}
 		b, _ := os.ReadFile(p)
 		t[rel] = string(b)
 		return nil
